@@ -912,6 +912,17 @@ pub fn suite_cliwrites(dir: &str, seed: u64, thorough: bool, st: &mut Stats) {
             for part in 0..rng.range(2, 6) { if part % 2 == 0 { v.extend_from_slice(&blk); } else { let a = rng.below(base.len() as u64 / 2) as usize; v.extend_from_slice(&base[a..a + rng.range(100, 1200) as usize]); } }
             c.src = v;
         }
+        // half of the cases: compressible data stored compressed (stored size < chunk size), content-defined chunks of
+        // varying size -- what the planner must never confuse is the size of a chunk in the source and in the archive
+        if i % 2 == 1 {
+            c.comp = Some((*rng.pick(&[3u32, 2, 1]), 3));
+            c.cfg = Cfg { algo: *rng.pick(&['R', 'B']), bits: rng.range(5, 8) as u32, min: 32, max: 2000, win: 16 };
+            let words: Vec<Vec<u8>> = (0..40).map(|_| (0..rng.range(2, 9)).map(|_| b"etaoinshrdlu "[rng.below(13) as usize]).collect()).collect();
+            let mut v = vec![];
+            while v.len() < 6000 { let w: &Vec<u8> = &words[rng.below(words.len() as u64) as usize]; v.extend_from_slice(w); }
+            c.src = v;
+        }
+        let compressible = i % 2 == 1;
         let s = Scn::new("cw", i as u64);
         s.write("src.bin", &c.src);
         let mut args: Vec<String> = vec!["compress".into(), "-i".into(), "src.bin".into()];
@@ -920,8 +931,9 @@ pub fn suite_cliwrites(dir: &str, seed: u64, thorough: bool, st: &mut Stats) {
         let argv: Vec<&str> = args.iter().map(|x| x.as_str()).collect();
         if s.bita(&argv, None, &[]).0 != 0 { return; }
         let archive = s.read("a.cba").unwrap();
-        let prior: Vec<u8> = match rng.below(8) {
+        let prior: Vec<u8> = match if compressible { 3 + rng.below(2) * 6 } else { rng.below(8) } {
             0 => vec![],
+            9 => { let h = c.src.len() / 2; let mut v = c.src[h..].to_vec(); v.extend_from_slice(&c.src[..h]); v }   // halves swapped
             1 => c.src.clone(),
             2 => { let mut v = c.src.clone(); for _ in 0..rng.range(1, 2000) { v.push(rng.next() as u8); } v }       // longer: chunks beyond the new size
             3 => { let k = rng.below(c.src.len() as u64 + 1) as usize; let mut v = c.src[k..].to_vec(); v.extend_from_slice(&c.src[..k]); v }  // rotated
